@@ -81,6 +81,39 @@ def run_verus(path, seed, rlimit=30, solver=None, threads=None, multiple_errors=
     return {'cmd': ' '.join(cmd), 'rc': p.returncode, 'json': js, 'diags': diags, 'raw': raw, 'wall_s': dt}
 
 
+def run_verus_robust(path, asm, unit, seed, rlimit=30, solver=None, threads=None, retries=None):
+    """run_verus, and when the solver gave up on a query (resource limit) run the file again with four
+    times the limit, then with another seed: a proof found under any limit or seed is a proof, and
+    `gave up` must not be reported while a bigger budget decides. Every retry is recorded."""
+    run = run_verus(path, seed, rlimit, solver, threads)
+    f, te, rl = classify(asm, run, unit)
+    if rl and not te:
+        for (sd, lim) in ((seed, rlimit * 4), (seed + 7, rlimit * 4)):
+            run2 = run_verus(path, sd, lim, solver, threads)
+            f2, te2, rl2 = classify(asm, run2, unit)
+            if retries is not None:
+                retries.append({'file': os.path.basename(path), 'seed': sd, 'rlimit': lim,
+                                'still_gave_up': bool(rl2), 'wall_s': round(run2['wall_s'], 1)})
+            if not te2 and not rl2:
+                return run2
+            if not te2 and len(rl2) < len(rl):
+                run, rl = run2, rl2
+    return run
+
+
+def slow_functions(run):
+    """names of the functions whose query did not succeed in this run (for messages)"""
+    out = []
+    try:
+        for m in run['json']['times-ms']['smt']['smt-run-module-times']:
+            for f in m['function-breakdown']:
+                if not f.get('success', True):
+                    out.append(f['function'].split('::')[-1])
+    except Exception:
+        pass
+    return out
+
+
 def enclosing_fn(asm, line):
     """for hand-written template text: nearest preceding `fn NAME`."""
     for k in range(line - 1, -1, -1):
@@ -264,19 +297,24 @@ def run_unit(unit, tier='quick', seed=0, keep=None, solver=None, rlimit=30):
                     shutil.copy(pp, keep)
                 part_files.append((pitem, pk, pasm, pp))
         with ThreadPoolExecutor(max_workers=14) as ex:
-            f1 = ex.submit(run_verus, main_p, seed, rlimit, solver, 4)
+            retries = []
+            f1 = ex.submit(run_verus_robust, main_p, asm, unit, seed, rlimit, solver, 4, retries)
             f2 = ex.submit(run_verus, can_p, seed, 10, solver, 4, 0)
-            pfs = [ex.submit(run_verus, pp, seed, rlimit, solver, 2) for (_, _, _, pp) in part_files]
+            pfs = [ex.submit(run_verus_robust, pp, pasm, unit, seed, rlimit, solver, 2, retries) for (_, _, pasm, pp) in part_files]
             run = f1.result()
             crun = f2.result()
             pruns = [f.result() for f in pfs]
         res.cmd = re.sub(re.escape(work), '<scratch>', run['cmd'])
         failures, tool_errors, rlimits = classify(asm, run, unit)
+        for q in rlimits:
+            q['message'] = '%s [%s: %s]' % (q['message'], os.path.basename(main_p), ','.join(slow_functions(run)) or '?')
         part_rows = {}
         for (pitem, pk, pasm, pp), prun in zip(part_files, pruns):
             pf, pte, prl = classify(pasm, prun, unit)
             failures += pf
             tool_errors += pte
+            for q in prl:
+                q['message'] = '%s [%s: %s]' % (q['message'], os.path.basename(pp), ','.join(slow_functions(prun)) or '?')
             rlimits += prl
             for name, row in fn_rows(prun).items():
                 if '__part' in name:
@@ -338,6 +376,8 @@ def run_unit(unit, tier='quick', seed=0, keep=None, solver=None, rlimit=30):
                         res.inconclusive.append('vacuity canary verified for %s: `ensures false` is provable, the contract is vacuous' % it['item'])
         res.items = asm.items
         res.log = asm.log
+        if retries:
+            res.log['solver_budget_retries'] = retries
         res.labels = asm.labels
         res.template_lines = asm.template_lines
         res.assumption_scan = assumption_scan(asm.text())
